@@ -240,7 +240,7 @@ func (p *Packet) NewData(data interface{}, dims []int16) error {
 	p.format = pfmt
 	p.headerLength += 8
 	p.shape = new(headPayloadShape)
-	p.shape.Sizes = make([]int16, 1)
+	p.shape.Sizes = make([]int16, ndim)
 	for i := 0; i < ndim; i++ {
 		p.shape.Sizes[i] = dims[i]
 	}
